@@ -9,7 +9,7 @@ import traceback
 from typing import Callable
 
 from .ctx import Ctx
-from .loader import AnalysisError, FuncInfo, ModuleInfo, call_name, norm, own_nodes
+from .loader import AnalysisError, FuncInfo, ModuleInfo, call_name, tnorm as norm, own_nodes
 from .report import Report
 
 
